@@ -8,3 +8,8 @@ import "net"
 // verifC11OnWrite is a verification hook point in the send goroutine just before the write; without the
 // build tag verif it is an empty function that the compiler inlines away.
 func verifC11OnWrite(*connection, net.Conn, []byte) {}
+
+// verifC11AfterDequeue is a verification hook point in the send goroutine right after it has taken a request from
+// a queue and before it tests whether its connection is still the current one; without the build tag verif it is
+// an empty function that the compiler inlines away.
+func verifC11AfterDequeue(*connection, net.Conn, []byte) {}
